@@ -81,7 +81,8 @@ pub fn raw_tx() -> impl Strategy<Value = RawTx> {
 	(
 		prop::collection::vec(any::<u16>(), 1..=3),
 		prop::collection::vec(raw_out(), 1..=3),
-		0u8..4,
+		// low two bits: fee menu; the higher bits choose among the variants of a kernel kind (how far ahead a lock lies)
+		prop_oneof![2 => 0u8..4, 1 => any::<u8>()],
 		prop_oneof![6 => Just(0u8), 1 => Just(1u8), 1 => Just(2u8), 1 => Just(3u8)],
 		any::<bool>(),
 		prop::bool::weighted(0.25),
@@ -336,7 +337,13 @@ impl World {
 						kind: KKind::Nrd,
 						fee: f,
 						shift: 0,
-						lock: 1 + ((rt.kern - 5) % 3) as u64,
+						// relative heights 1..3 (the boundary lies inside the histories), now and then the longest ones
+						// the rule admits (a day, a week): every repetition inside such a history must then be refused
+						lock: match (rt.fee / 4) % 8 {
+							6 => 1440,
+							7 => grin_core::consensus::WEEK_HEIGHT,
+							_ => 1 + ((rt.kern - 5) % 3) as u64,
+						},
 						excess_tag: 1 + ((rt.kern - 5) / 3) as u32,
 					}],
 					3 => vec![
@@ -712,7 +719,7 @@ impl World {
 			}
 			for k in &sp.kernels {
 				match k.kind {
-					KKind::HeightLocked => tags.push(format!("lock:{}", tag(height as i64 - k.lock as i64))),
+					KKind::HeightLocked => tags.push(format!("lock:{}", if k.lock > height && k.lock - height >= 1 << 32 { "far-early".to_string() } else { tag(height as i64 - k.lock as i64) })),
 					KKind::Nrd => {
 						let ex = sign_kernel(k.features(), &scalar_from(format!("tag{}", k.excess_tag).as_bytes())).excess.0.to_vec();
 						if height < 9 {
